@@ -274,6 +274,7 @@ func c12(p *model.Prog, r *report.Result) {
 		}
 	}
 	r.Check(okSingle, "C12.R3", fkey(fn, "single", "copy-whole"), p.Pos(fn.Pos()), "single-NAL packet = copy(nal)", "a unit that fits the payload limit is no longer sent as an unmodified single NAL packet")
+	c12r45(p, r)
 }
 
 // selfGuard: guards contributed by the block's own position as a successor (none) — kept
